@@ -530,3 +530,18 @@ class GetProjectRoot:
         # C09: the detected root is a function of the RESOLVED start directory (and of the markers above it) -- relative
         # and absolute spellings of the same directory give the same root
         return pyproj_root(path_resolve(start_path))
+
+
+# =================================================================== 7. where the CLI starts the project-root search
+@contract(CU + "get_or_detect_project_root~c09", props=["C09", "C05"],
+          types=dict(path_objs=SeqOf(PathT), project_root=Opt(PathT), first_path=PathT, search_start=PathT), returns=PathT)
+class GetOrDetectProjectRootSearchStart:
+    """Second view (contracts/c06_cli.py holds the assumed 'a function of the paths' view for C06): the marker search
+    starts AT a directory target and at the parent of a file target -- decided by the file system, not by the spelling of
+    the name (a project directory called proj-1.2 or my.site is a directory)."""
+    def requires(path_objs, project_root):
+        return len(path_objs) > 0   # (no target: Path.cwd(), the working directory is an input of the run)
+
+    def value(path_objs, project_root):
+        return project_root if project_root is not None else \
+            pyproj_root(path_resolve(path_objs[0] if fs_is_dir(path_objs[0]) else path_parent(path_objs[0])))
